@@ -18,9 +18,9 @@ func propC19() *Property {
 		Explanation: "Static dominance and table-agreement rules on package config and its consumers. Decided: (R1) config.parse returns a configuration only for an empty location, a missing file, or a decode without error AND without undecoded keys; defaults are stored before decoding into the same object; the package initialiser exits non-zero after a diagnostic on every error of parse and postprocess; (R2) for every field of Style.Colors (enumerated from the type) postprocess stores hexToAnsi of that same field with the error checked; hexToAnsi slices under len == 7 and parses each pair base 16 with the error checked; (R3) every read of a config.Parsed field anywhere in the module is in the consumer table, and for each consumer assumption (non-empty hook, positive cache size, non-negative preload amount, positive timeout) package config contains a comparison of that field whose failing edge reaches only error returns and which rejects every violating value. A new consumer without a table entry fails the check. Not decided: TOML parsing itself; that two hex digits parse to 0..255 (library semantics).",
 		Assumptions: []string{"BurntSushi/toml reports unknown keys through MetaData.Undecoded", "strconv.ParseUint(s, 16, 0) of two characters is 0..255 or an error"},
 		Rules: []Rule{
-			{ID: "C19.R1", Title: "strict decoding, defaults first, exit on every error", Floor: 10, Run: c19R1},
-			{ID: "C19.R2", Title: "every colour is converted by hexToAnsi with its error checked", Floor: 8, Run: c19R2},
-			{ID: "C19.R3", Title: "every consumer assumption about a config value is validated", Floor: 14, Run: c19R3},
+			{ID: "C19.R1", Title: "strict decoding, defaults first, exit on every error", Floor: 8, Run: c19R1},
+			{ID: "C19.R2", Title: "every colour is converted by hexToAnsi with its error checked", Floor: 9, Run: c19R2},
+			{ID: "C19.R3", Title: "every consumer assumption about a config value is validated", Floor: 15, Run: c19R3},
 		},
 	}
 }
@@ -325,7 +325,11 @@ func c19R2(c *Ctx) {
 			}
 			c.check(lenOK, hname+"/slice", P.InstrPos(in), hname, "slice with constant bounds under len(text) == 7", "colour text sliced without the length being established (panics on short input)")
 		case *ssa.Call:
-			if isLibCall(&x.Call, "strconv", "", "ParseUint") || isLibCall(&x.Call, "strconv", "", "ParseInt") {
+			if isLibCall(&x.Call, "strconv", "", "ParseInt") || isLibCall(&x.Call, "strconv", "", "Atoi") {
+				c.bad(hname+"/parse", P.InstrPos(in), hname, "colour digits are parsed with a signed parser: \"#-12345\" is accepted and yields a negative colour component (a malformed SGR code)")
+				return
+			}
+			if isLibCall(&x.Call, "strconv", "", "ParseUint") {
 				base, _ := constInt(x.Call.Args[1])
 				e, _ := errorResult(x)
 				checked := false
@@ -336,8 +340,14 @@ func c19R2(c *Ctx) {
 						}
 					}
 				}
-				_, isSlice := x.Call.Args[0].(*ssa.Slice)
-				c.check(base == 16 && checked && isSlice, hname+"/parse", P.InstrPos(in), hname, "two hex digits parsed base 16, error checked", "a colour component is not parsed as checked base-16 digits of the text")
+				sl, isSlice := x.Call.Args[0].(*ssa.Slice)
+				two := false
+				if isSlice {
+					lo, ok1 := constInt(sl.Low)
+					hi, ok2 := constInt(sl.High)
+					two = ok1 && ok2 && hi-lo == 2
+				}
+				c.check(base == 16 && checked && isSlice && two, hname+"/parse", P.InstrPos(in), hname, "two hex digits parsed (unsigned) base 16, error checked", "a colour component is not parsed as two checked unsigned base-16 digits of the text (components above 255 or signs become possible)")
 			}
 		}
 	})
@@ -447,6 +457,61 @@ func c19R3(c *Ctx) {
 			c.check(known, FuncName(fn)+"/config-read:"+fp, P.InstrPos(in), FuncName(fn),
 				"consumer of config value "+fp+" is in the consumer table ("+table[fp].why+")",
 				"new consumer of config value "+fp+" without an entry in the consumer table: its assumptions about the value are not known to be validated")
+		})
+	}
+	// the consumer whose requirement the table records must still be the consumer
+	wantUse := map[string][]string{
+		"Network.CacheSize": {"github.com/hashicorp/golang-lru/v2.New"},
+		"Network.Timeout":   {"(time.Time).Add", "store:net.Dialer.Timeout"},
+		"Media.Hook":        {"builtin:len", "builtin:copy"},
+	}
+	for _, fn := range P.Funcs {
+		if P.PkgOf(fn) == "servitor/config" {
+			continue
+		}
+		eachInstr(fn, func(_ *ssa.BasicBlock, _ int, in ssa.Instruction) {
+			u, ok := in.(*ssa.UnOp)
+			if !ok || u.Op != token.MUL {
+				return
+			}
+			if _, isFA := u.X.(*ssa.FieldAddr); !isFA {
+				return
+			}
+			fp, ok := configFieldPath(u.X)
+			if !ok || wantUse[fp] == nil {
+				return
+			}
+			for _, r := range refs(u) {
+				use := ""
+				switch x := r.(type) {
+				case ssa.CallInstruction:
+					cc := x.Common()
+					if b, ok := cc.Value.(*ssa.Builtin); ok {
+						use = "builtin:" + b.Name()
+					} else {
+						use = objFullName(calleeObj(cc))
+					}
+				case *ssa.Store:
+					if fa, ok := x.Addr.(*ssa.FieldAddr); ok {
+						if o := structOwner(fa); o != nil && o.Obj().Pkg() != nil {
+							use = "store:" + o.Obj().Pkg().Name() + "." + o.Obj().Name() + "." + fieldOf(fa).Name()
+						}
+					}
+				case *ssa.DebugRef:
+					continue
+				default:
+					continue
+				}
+				okUse := false
+				for _, w := range wantUse[fp] {
+					if use == w {
+						okUse = true
+					}
+				}
+				c.check(okUse, FuncName(fn)+"/config-use:"+fp, P.InstrPos(r), FuncName(fn),
+					fp+" is consumed by "+use+", whose requirement the consumer table records",
+					fp+" is now consumed by "+use+": the value range that consumer needs is not the one config validates (table entry: "+strings.Join(wantUse[fp], ", ")+")")
+			}
 		})
 	}
 	var rk []string
